@@ -522,6 +522,9 @@ func c09Explore(c *fw.Ctx, cs c09Case, bound int) {
 	if st.Deadlines > 0 {
 		c.HarnessError("C09 %s: %d executions hit the watchdog (first at schedule %v)", cs.name(), st.Deadlines, st.DeadlineAt)
 	}
+	if st.WarmStart {
+		c.Count("warm_start_scenarios", 1)
+	}
 	if st.Nondeterministic {
 		c.HarnessError("C09: replaying the default schedule gave a different execution (uncaptured nondeterminism)")
 	}
